@@ -94,4 +94,313 @@ theorem unpack_pack (shift : Nat) (hs : shift ≤ 6) (dat : List Nat) (hl : dat.
     simp only [Option.bind_some, le16, List.cons_append, List.nil_append]
     exact unpack_raw shift _ _ dat hl
 
+/-! ## the container (normal layer) -/
+
+/-! text coding -/
+
+theorem replCRLF_id (z : Nat) (t : List Nat) (h : noCRLF t = true) : replCRLF z t = t := by
+  induction t with
+  | nil => rfl
+  | cons a r ih =>
+    cases r with
+    | nil => rfl
+    | cons b r' =>
+      simp only [noCRLF, Bool.and_eq_true, Bool.not_eq_true', Bool.and_eq_false_iff, beq_eq_false_iff_ne] at h
+      have hn : ¬ (a = 13 ∧ b = 10) := by
+        intro ⟨h1, h2⟩; rcases h.1 with h' | h' <;> contradiction
+      simp only [replCRLF, if_neg hn, ih h.2]
+
+theorem map_nul_lf (t : List Nat) (h0 : ∀ b ∈ t, b ≠ 0) :
+    (t.map (fun b => if b = 10 then 0 else b)).map (fun b => if b = 0 then 10 else b) = t := by
+  induction t with
+  | nil => rfl
+  | cons a r ih =>
+    have ha := h0 a (by simp)
+    have hr : ∀ b ∈ r, b ≠ 0 := fun b hb => h0 b (by simp [hb])
+    simp only [List.map_cons, ih hr]
+    by_cases h10 : a = 10
+    · simp [h10]
+    · simp [h10, ha]
+
+theorem normLoop_id (f : Nat) (t : List Nat) (hc : noCRLF t = true) : normLoop f t = t := by
+  cases f <;> simp [normLoop, hc]
+
+theorem normalizeNotes_id (t : List Nat) (hc : noCRLF t = true) : normalizeNotes t = t :=
+  normLoop_id _ t hc
+
+/-- notes in the in-memory normal form (no NUL, no CR LF pair) survive save + load unchanged -/
+theorem decode_encode (t : List Nat) (h0 : ∀ b ∈ t, b ≠ 0) (hc : noCRLF t = true) :
+    decodeText (encodeText t) = t := by
+  simp only [decodeText, encodeText, replCRLF_id 0 t hc, map_nul_lf t h0, normalizeNotes_id t hc]
+
+/-! sector and track records -/
+
+/-- a sector as a2kit holds it: no-data sectors carry no record, the others a record whose length word is right -/
+def SectorWf (s : Sector) : Prop :=
+  (s.flags &&& NO_DATA_MASK ≠ 0 ∧ s.data = []) ∨
+  (s.flags &&& NO_DATA_MASK = 0 ∧ ∃ l0 l1 body, s.data = l0 :: l1 :: body ∧ unle16 l0 l1 = body.length)
+
+theorem readSectors_cons (n : Nat) (s : Sector) (hs : SectorWf s) (rest : List Nat) :
+    readSectors (n + 1) (sectorToBytes s ++ rest) =
+      match readSectors n rest with
+      | some (ss, r) => some (canonSector s :: ss, r)
+      | none => none := by
+  obtain ⟨c, h, i, sh, fl, crc, data⟩ := s
+  rcases hs with ⟨hf, hd⟩ | ⟨hf, l0, l1, body, hd, hl⟩
+  · simp only at hf hd
+    subst hd
+    simp only [sectorToBytes, List.cons_append, List.nil_append, readSectors, if_neg hf, List.append_nil, canonSector]
+    rcases readSectors n rest with _ | ⟨ss, r⟩ <;> rfl
+  · simp only at hf hd
+    subst hd
+    simp only [sectorToBytes, List.cons_append, List.nil_append, readSectors, if_pos hf, hl]
+    have h1 : ¬ ((body ++ rest).length < body.length) := by simp
+    rw [if_neg h1]
+    have ht : (body ++ rest).take body.length = body := by simp
+    have hdp : (body ++ rest).drop body.length = rest := by simp
+    simp only [ht, hdp, canonSector]
+    rcases readSectors n rest with _ | ⟨ss, r⟩ <;> rfl
+
+theorem readSectors_all (ss : List Sector) (h : ∀ s ∈ ss, SectorWf s) (rest : List Nat) :
+    readSectors ss.length ((ss.map sectorToBytes).flatten ++ rest) = some (ss.map canonSector, rest) := by
+  induction ss with
+  | nil => simp [readSectors]
+  | cons s ss ih =>
+    have hs := h s (by simp)
+    have ht : ∀ t ∈ ss, SectorWf t := fun t ht => h t (by simp [ht])
+    simp only [List.map_cons, List.flatten_cons, List.length_cons, List.append_assoc,
+      readSectors_cons ss.length s hs, ih ht]
+
+def TrackWf (t : Track) : Prop :=
+  t.nsec = t.sectors.length ∧ t.nsec ≠ 0xFF ∧ ∀ s ∈ t.sectors, SectorWf s
+
+theorem readTracks_cons (fuel : Nat) (t : Track) (ht : TrackWf t) (rest : List Nat) :
+    readTracks (fuel + 1) (trackToBytes t ++ rest) =
+      match readTracks fuel rest with
+      | some ts => some (canonTrack t :: ts)
+      | none => none := by
+  obtain ⟨hn, hff, hs⟩ := ht
+  obtain ⟨n, c, h, crc, ss⟩ := t
+  simp only at hn hff hs
+  subst hn
+  simp only [trackToBytes, List.cons_append, List.nil_append, readTracks, if_neg hff,
+    readSectors_all ss hs, canonTrack, trackCrc]
+  cases readTracks fuel rest <;> rfl
+
+theorem readTracks_all (ts : List Track) (h : ∀ t ∈ ts, TrackWf t) (tail : List Nat) (fuel : Nat)
+    (hf : ts.length < fuel) :
+    readTracks fuel ((ts.map trackToBytes).flatten ++ 0xFF :: tail) = some (ts.map canonTrack) := by
+  induction ts generalizing fuel with
+  | nil =>
+    cases fuel with
+    | zero => simp at hf
+    | succ f => simp [readTracks]
+  | cons t ts ih =>
+    cases fuel with
+    | zero => simp at hf
+    | succ f =>
+      have ht := h t (by simp)
+      have hr : ∀ u ∈ ts, TrackWf u := fun u hu => h u (by simp [hu])
+      have hf' : ts.length < f := by simp at hf; omega
+      simp only [List.map_cons, List.flatten_cons, List.append_assoc, readTracks_cons f t ht, ih hr f hf']
+
+/-! the whole normal-layer stream -/
+
+structure ImageWf (x : Image) : Prop where
+  hdr : x.hdr.length = 8
+  tracks : ∀ t ∈ x.tracks, TrackWf t
+  comment : ∀ c, x.comment = some c → c.stamp.length = 6 ∧ (encodeText c.text).length < 65536 ∧
+    (∀ b ∈ c.text, b ≠ 0) ∧ noCRLF c.text = true
+
+theorem tracks_length_le (ts : List Track) : ts.length ≤ ((ts.map trackToBytes).flatten).length := by
+  induction ts with
+  | nil => simp
+  | cons t ts ih => simp only [List.map_cons, List.flatten_cons, List.length_append, List.length_cons, trackToBytes]; omega
+
+theorem syncHdr_length (hdr : List Nat) (b : Bool) (h : hdr.length = 8) : (syncHdr hdr b).length = 8 := by
+  match hdr, h with
+  | [a0, a1, a2, a3, a4, a5, a6, a7], _ => simp [syncHdr]
+
+theorem syncHdr_flag (hdr : List Nat) (h : hdr.length = 8) :
+    ((syncHdr hdr true).getD 5 0 &&& COMMENT_MASK > 0) ∧ ¬ ((syncHdr hdr false).getD 5 0 &&& COMMENT_MASK > 0) := by
+  match hdr, h with
+  | [a0, a1, a2, a3, a4, a5, a6, a7], _ =>
+    simp only [syncHdr, List.getD_eq_getElem?_getD, COMMENT_MASK]
+    constructor
+    · show (a5 ||| 128) &&& 128 > 0
+      have : (a5 ||| 128) &&& 128 = 128 := by
+        apply Nat.eq_of_testBit_eq; intro i
+        simp only [Nat.testBit_and, Nat.testBit_or]
+        cases h7 : Nat.testBit 128 i <;> simp
+      omega
+    · show ¬ ((a5 &&& (128 ^^^ 255)) &&& 128 > 0)
+      have : (a5 &&& (128 ^^^ 255)) &&& 128 = 0 := by
+        rw [Nat.and_assoc]
+        have : (128 ^^^ 255) &&& 128 = 0 := by decide
+        rw [this]; simp
+      omega
+
+theorem td0_fromBytes_toBytes (x : Image) (h : ImageWf x) :
+    fromBytesNormal (toBytesNormal x) = some (canon x) := by
+  have hh : (head10 x).length = 10 := by simp [head10, syncHdr_length x.hdr _ h.hdr]
+  have hfuel : ∀ pre : List Nat, x.tracks.length < (pre ++ ((x.tracks.map trackToBytes).flatten ++ 0xFF :: TRAILER)).length := by
+    intro pre
+    have := tracks_length_le x.tracks
+    simp only [List.length_append, List.length_cons]; omega
+  cases hc : x.comment with
+  | none =>
+    have hb : toBytesNormal x = head10 x ++ (le16 (crc16 0 (head10 x)) ++ ((x.tracks.map trackToBytes).flatten ++ 0xFF :: TRAILER)) := by
+      simp [toBytesNormal, hc]
+    have hlen : ¬ ((toBytesNormal x).length < 12) := by
+      rw [hb]; simp only [List.length_append, hh, le16, List.length_cons, List.length_nil]; omega
+    have hf : x.tracks.length < (toBytesNormal x).length := by
+      rw [hb]; have := tracks_length_le x.tracks
+      simp only [List.length_append, List.length_cons]; omega
+    have ht10 : (toBytesNormal x).take 10 = head10 x := by rw [hb, ← hh]; simp
+    have ht2 : (toBytesNormal x).take 2 = [84, 68] := by rw [hb]; simp [head10]
+    have hd10 : ((toBytesNormal x).drop 10).take 2 = le16 (crc16 0 (head10 x)) := by
+      rw [hb, ← hh]; simp [le16]
+    have hd12 : (toBytesNormal x).drop 12 = (x.tracks.map trackToBytes).flatten ++ 0xFF :: TRAILER := by
+      rw [hb]
+      have : 12 = (head10 x ++ le16 (crc16 0 (head10 x))).length := by simp [hh, le16]
+      rw [this, ← List.append_assoc, List.drop_left]
+    have hflag := (syncHdr_flag x.hdr h.hdr).2
+    unfold fromBytesNormal
+    rw [if_neg hlen, ht2]
+    simp only [ne_eq, not_true_eq_false, if_false, ht10, hd10]
+    have hdrop2 : (head10 x).drop 2 = syncHdr x.hdr false := by simp [head10, hc]
+    rw [hdrop2, if_neg hflag, hd12]
+    have := readTracks_all x.tracks h.tracks TRAILER (toBytesNormal x).length hf
+    rw [this]
+    simp [canon, hc]
+  | some c =>
+    obtain ⟨hst, hlen16, h0, hcr⟩ := h.comment c hc
+    have hb : toBytesNormal x = head10 x ++ (le16 (crc16 0 (head10 x)) ++ (le16 (crc16 0 (commentBody c)) ++
+        (commentBody c ++ ((x.tracks.map trackToBytes).flatten ++ 0xFF :: TRAILER)))) := by
+      simp [toBytesNormal, hc]
+    have hlen : ¬ ((toBytesNormal x).length < 12) := by
+      rw [hb]; simp only [List.length_append, hh, le16, List.length_cons, List.length_nil]; omega
+    have hf : x.tracks.length < (toBytesNormal x).length := by
+      rw [hb]; have := tracks_length_le x.tracks
+      simp only [List.length_append, List.length_cons]; omega
+    have ht10 : (toBytesNormal x).take 10 = head10 x := by rw [hb, ← hh]; simp
+    have ht2 : (toBytesNormal x).take 2 = [84, 68] := by rw [hb]; simp [head10]
+    have hd10 : ((toBytesNormal x).drop 10).take 2 = le16 (crc16 0 (head10 x)) := by
+      rw [hb, ← hh]; simp [le16]
+    have hd12 : (toBytesNormal x).drop 12 = le16 (crc16 0 (commentBody c)) ++
+        (commentBody c ++ ((x.tracks.map trackToBytes).flatten ++ 0xFF :: TRAILER)) := by
+      rw [hb]
+      have : 12 = (head10 x ++ le16 (crc16 0 (head10 x))).length := by simp [hh, le16]
+      rw [this, ← List.append_assoc, List.drop_left]
+    have hflag := (syncHdr_flag x.hdr h.hdr).1
+    unfold fromBytesNormal
+    rw [if_neg hlen, ht2]
+    simp only [ne_eq, not_true_eq_false, if_false, ht10, hd10]
+    have hdrop2 : (head10 x).drop 2 = syncHdr x.hdr true := by simp [head10, hc]
+    rw [hdrop2, if_pos hflag, hd12]
+    -- the comment block
+    have hmod : (encodeText c.text).length % 65536 = (encodeText c.text).length := Nat.mod_eq_of_lt hlen16
+    have hcb : commentBody c = ((encodeText c.text).length % 256) :: ((encodeText c.text).length / 256 % 256) ::
+        (c.stamp ++ encodeText c.text) := by
+      simp [commentBody, le16, hmod]
+    have hun : unle16 ((encodeText c.text).length % 256) ((encodeText c.text).length / 256 % 256) = (encodeText c.text).length :=
+      unle16_le16 _ hlen16
+    simp only [le16, List.cons_append, List.nil_append]
+    rw [hcb]
+    simp only [List.cons_append, hun, List.append_assoc]
+    have h6 : ¬ ((c.stamp ++ (encodeText c.text ++ ((x.tracks.map trackToBytes).flatten ++ 0xFF :: TRAILER))).length < 6) := by
+      simp [hst]
+    rw [if_neg h6]
+    have hts : (c.stamp ++ (encodeText c.text ++ ((x.tracks.map trackToBytes).flatten ++ 0xFF :: TRAILER))).take 6 = c.stamp := by
+      rw [← hst, List.take_left]
+    have hds : (c.stamp ++ (encodeText c.text ++ ((x.tracks.map trackToBytes).flatten ++ 0xFF :: TRAILER))).drop 6 =
+        encodeText c.text ++ ((x.tracks.map trackToBytes).flatten ++ 0xFF :: TRAILER) := by
+      rw [← hst, List.drop_left]
+    simp only [hts, hds]
+    have hl2 : ¬ ((encodeText c.text ++ ((x.tracks.map trackToBytes).flatten ++ 0xFF :: TRAILER)).length < (encodeText c.text).length) := by simp
+    rw [if_neg hl2]
+    have hte : (encodeText c.text ++ ((x.tracks.map trackToBytes).flatten ++ 0xFF :: TRAILER)).take (encodeText c.text).length = encodeText c.text := by simp
+    have hde : (encodeText c.text ++ ((x.tracks.map trackToBytes).flatten ++ 0xFF :: TRAILER)).drop (encodeText c.text).length =
+        (x.tracks.map trackToBytes).flatten ++ 0xFF :: TRAILER := by simp
+    simp only [hte, hde]
+    have hcrc : crc16 0 ((encodeText c.text).length % 256 :: (encodeText c.text).length / 256 % 256 :: (c.stamp ++ encodeText c.text)) = crc16 0 (commentBody c) := by
+      rw [hcb]
+    simp only [hcrc, not_true_eq_false, if_false]
+    have := readTracks_all x.tracks h.tracks TRAILER (toBytesNormal x).length hf
+    rw [this]
+    simp [canon, hc, decode_encode c.text h0 hcr, le16, hmod]
+
+/-! fixpoint: the object after `to_bytes` / after a re-parse serialises to the same bytes -/
+
+theorem sectorCrc_canon (s : Sector) : sectorCrc (canonSector s) = sectorCrc s := by
+  simp only [sectorCrc, canonSector]
+  by_cases hf : s.flags &&& NO_DATA_MASK > 0
+  · simp [hf]
+  · simp only [if_neg hf]
+    cases unpack s.shift s.data <;> rfl
+
+theorem sectorToBytes_canon (s : Sector) : sectorToBytes (canonSector s) = sectorToBytes s := by
+  simp only [sectorToBytes, sectorCrc_canon]
+  rfl
+
+theorem trackToBytes_canon (t : Track) : trackToBytes (canonTrack t) = trackToBytes t := by
+  simp only [trackToBytes, canonTrack, trackCrc, List.map_map]
+  congr 2
+  apply List.map_congr_left
+  intro s _
+  exact sectorToBytes_canon s
+
+theorem syncHdr_idem (hdr : List Nat) (b : Bool) : syncHdr (syncHdr hdr b) b = syncHdr hdr b := by
+  match hdr with
+  | [a0, a1, a2, a3, a4, a5, a6, a7] =>
+    cases b
+    · simp [syncHdr, Nat.and_assoc]
+    · simp [syncHdr, Nat.or_assoc]
+  | [] | [_] | [_, _] | [_, _, _] | [_, _, _, _] | [_, _, _, _, _] | [_, _, _, _, _, _] | [_, _, _, _, _, _, _] => rfl
+  | _ :: _ :: _ :: _ :: _ :: _ :: _ :: _ :: _ :: _ => rfl
+
+theorem td0_toBytes_canon (x : Image) : toBytesNormal (canon x) = toBytesNormal x := by
+  have hsome : (canon x).comment.isSome = x.comment.isSome := by
+    simp [canon]
+  have hh : head10 (canon x) = head10 x := by
+    simp only [head10, hsome]
+    simp [canon, syncHdr_idem]
+  have ht : ((canon x).tracks.map trackToBytes) = x.tracks.map trackToBytes := by
+    simp only [canon, List.map_map]
+    apply List.map_congr_left
+    intro t _
+    exact trackToBytes_canon t
+  simp only [toBytesNormal, hh, ht]
+  cases hc : x.comment with
+  | none => simp [canon, hc]
+  | some c => simp [canon, hc, commentBody]
+
+/-- what `Sector::pack` builds is a well-formed record (links the codec theorem to the container theorem) -/
+theorem pack_sectorWf (shift : Nat) (hs : shift ≤ 6) (dat rec : List Nat) (h : pack shift dat = some rec)
+    (c hd i crc : Nat) :
+    SectorWf { cyl := c, head := hd, id := i, shift := shift, flags := 0, crc := crc, data := rec } := by
+  obtain ⟨k, hk, hk64, hk4096⟩ := secSize_cases shift hs
+  refine Or.inr ⟨by simp, ?_⟩
+  simp only [pack] at h
+  by_cases hl : dat.length ≠ secSize shift
+  · simp [hl] at h
+  · rw [if_neg hl] at h
+    by_cases hu : isUniform dat = true
+    · rw [if_pos hu] at h
+      cases dat with
+      | nil => simp at hl; omega
+      | cons d ds =>
+        simp only [Option.some.injEq] at h
+        subst h
+        exact ⟨5, 0, _, rfl, by simp [unle16, le16]⟩
+    · rw [if_neg hu] at h
+      simp only [Option.some.injEq] at h
+      have hl' : dat.length = secSize shift := by omega
+      have hrec : rec = ((secSize shift % 65536 + 1) % 65536 % 256) :: ((secSize shift % 65536 + 1) % 65536 / 256 % 256) ::
+          (ENC_RAW :: dat) := by rw [← h]; simp [le16]
+      subst hrec
+      refine ⟨_, _, _, rfl, ?_⟩
+      simp only [List.length_cons, hl', unle16, hk]
+      omega
+
 end A2Verif.Lemmas.C09Td0
